@@ -32,7 +32,7 @@ def battery(methods, limits=(None, 1, 2), frames=True):
     return jobs
 
 
-def replay(call):
+def _replay(call):
     warnings.filterwarnings('ignore')
     kind = call.get('kind')
     singles = ['ffill', 'bfill', 0.0, -1.5, 'ffill_na', 'ffill_0', 'fnna', 'nona']
@@ -43,8 +43,24 @@ def replay(call):
         bad = _jobs(battery(singles) + battery(lists, limits=(None, 1), frames=False))
     elif kind == 'loop':
         bad = _jobs(battery(lists, limits=(None, 1)) + battery(singles, limits=(None,)))
+    elif kind == 'nona':
+        bad = _jobs([dict(cols=[v], frame=False, method=mm, limit=None) for v in VEC for mm in ('nona()', 'nona')]
+                    + [dict(cols=f, frame=True, method=mm, limit=None) for f in FRAMES for mm in ('nona()', 'nona')])
+        import numpy as np, pandas as pd
+        from pyg_base import nona
+        s = pd.Series([np.nan, 1., np.nan, 2., 3., np.nan], pd.date_range('2020-01-01', periods=6))
+        if list(nona(s, edge=1).index) != list(s.index[:5]) or list(nona(s, edge=-1).index) != list(s.index[1:]):
+            bad.append('nona(series, edge = 1 / -1) does not trim exactly the trailing / leading NaN')
+        fr = pd.DataFrame(dict(a=[1., np.nan, np.nan], b=[np.nan, np.nan, 2.]), s.index[:3])
+        if list(nona(fr).index) != [s.index[0], s.index[2]]:
+            bad.append('nona(frame) must drop exactly the rows that are NaN in every column, kept %s' % list(nona(fr).index))
     elif kind == 'frame':
         bad = [b for b in _jobs(battery(singles + lists, limits=(None, 1))) if 'input-modified' in b]
     else:
         return dict(fails=None, detail='no native battery for %r' % kind)
     return dict(fails=bool(bad), detail=('; '.join(bad))[:600] if bad else 'the clause holds on the real code for the whole battery of this obligation family')
+
+
+def replay(call):
+    from rac.ded_cache import cached
+    return cached(__name__, call, lambda: _replay(call), uses=(), deps=(__file__, B.__file__))
